@@ -32,8 +32,8 @@ L2Strict == Between(Norm(ver, gdoc), L2RT(ver, gdoc), gdoc)
 L2ImpliesL1 == L2Strict \/ KnownDeviation(gcase)
 L2Idem == L2RT(ver, L2RT(ver, gdoc)) = L2RT(ver, gdoc)
 
-RecvReplaceL1 == ghist = NoHist \/ RecvL1("replace", ver, ghist.prior, gdoc)
-RecvInplaceL1 == ghist = NoHist \/ RecvL1("inplace", ver, ghist.prior, gdoc)
+RecvReplaceL1 == ghist = NoHist \/ IsKindHist(ghist) \/ RecvL1("replace", ver, ghist.prior, gdoc)
+RecvInplaceL1 == ghist = NoHist \/ IsKindHist(ghist) \/ RecvL1("inplace", ver, ghist.prior, gdoc)
 ASSUME \A v \in {2, 3} : \A n \in PriorNames(v) : PriorParses(n) => IsNormal(v, PriorDoc(v, n))
 
 Mark == Sv("MARK")
